@@ -3,7 +3,8 @@
   SCORE - nan, +inf, -inf or finite - makes `evaluate` / `evaluate_init` of these optimizers fail.  Whether the call fails is
   decided by the state alone (no current member; for DIRECT: no recorded bound left on the tape), stated as an equivalence.
 
-    GridSearch, Bayesian / TPE / Forest / Lipschitz      total
+    GridSearch                                           total
+    Bayesian / TPE / Forest / Lipschitz                  ok  <->  not (candidate array built from an empty list and replacement=False)
     ParticleSwarm, EvolutionStrategy, DifferentialEvolution, GeneticAlgorithm (non-stochastic members), Spiral
                                                          ok  <->  there is a current member
     DirectAlgorithm                                      ok  <->  not yet iterating, or the next tape entry is a bound
@@ -17,9 +18,21 @@ theorem C15_grid_evaluate_total (cfg : GridCfg) (s : GridSt) (score : F) :
     (∃ s', (gridBackend cfg).evaluate s score = .ok s') ∧ (∃ s', (gridBackend cfg).evalInit s score = .ok s') :=
   ⟨⟨_, rfl⟩, ⟨_, rfl⟩⟩
 
+/-- the surrogate-model optimizers: `evaluate_init` is total; `evaluate` fails exactly when `_remove_position` meets a candidate
+    array built from an empty list (`flat`) - decided by the state and `replacement`, never by the score -/
 theorem C15_smbo_evaluate_total (cfg : SmboCfg) (s : SmboSt) (score : F) :
-    (∃ s', (smboBackend cfg).evaluate s score = .ok s') ∧ (∃ s', (smboBackend cfg).evalInit s score = .ok s') :=
-  ⟨⟨_, rfl⟩, ⟨_, rfl⟩⟩
+    ((∃ s', (smboBackend cfg).evaluate s score = .ok s') ↔ ¬ (s.flat = true ∧ cfg.replacement = false)) ∧
+    (∃ s', (smboBackend cfg).evalInit s score = .ok s') := by
+  refine ⟨?_, ⟨_, rfl⟩⟩
+  show (∃ s', smboEvaluateE cfg s score = .ok s') ↔ _
+  unfold smboEvaluateE
+  by_cases h : s.flat = true ∧ cfg.replacement = false
+  · simp only [h, and_self, if_true, not_true_eq_false, iff_false, not_exists]
+    intro s' hs
+    split at hs
+    · split at hs <;> simp at hs
+    · simp at hs
+  · simp [h]
 
 /-- `evaluate_init` of every population: fails only when no member is current, whatever the score -/
 theorem C15_population_evalInit (s : PopSt) (score : F) :
